@@ -24,7 +24,12 @@ Degenerate == {foo \o <<SP, LBRACK, HYPHEN, HYPHEN, RBRACK>>, foo \o <<SP, LBRAC
 bar == <<98, 97, 114>>
 Juxta == {pre \o foo \o sep \o bar : pre \in {<<>>, <<113, COMMA, SP>>}, sep \in {<<SP>>, <<TAB>>, <<LF>>, <<CR>>, <<LF, TAB>>, <<SP, TAB, SP>>, <<LF, SP>>}}
          \cup {foo \o c : c \in {<<RBRACK>>, <<RPAREN>>, <<GT>>, <<RBRACE>>, <<EQ, 49>>, <<BANG>>, <<59>>, <<TAB, RPAREN>>, <<LF, RBRACK>>}}
-DepVecs == {[k |-> Kind, text |-> t] : t \in Texts \cup Degenerate \cup Juxta}
+\* an architecture name that ends in a non-ASCII space (U+00A0, U+2003, U+0085 as UTF-8), last or not last in its list:
+\* whatever the parser makes of it, rendering and re-parsing must give the same thing
+NbspArch == {foo \o <<SP, LBRACK>> \o amd64 \o <<SP, 105, 51, 56, 54>> \o w \o <<RBRACK>> : w \in {<<194, 160>>, <<226, 128, 131>>, <<194, 133>>}}
+            \cup {foo \o <<SP, LBRACK, 105, 51, 56, 54>> \o w \o <<SP>> \o amd64 \o <<RBRACK>> : w \in {<<194, 160>>, <<226, 128, 131>>}}
+            \cup {foo \o <<SP, LBRACK, BANG, 104, 117, 114, 100, HYPHEN, 97, 110, 121, 226, 128, 131, RBRACK, SP, LPAREN, GT, EQ, SP, 49, RPAREN>>}
+DepVecs == {[k |-> Kind, text |-> t] : t \in Texts \cup Degenerate \cup Juxta \cup NbspArch}
 
 \* ---- architecture names (C05) ------------------------------------------------
 bKf == <<107, 102, 114, 101, 101, 98, 115, 100>>  bMusl == <<109, 117, 115, 108>>
